@@ -281,6 +281,15 @@ def run_nc(c):
             if abs(v[key] - want) > 0.005:
                 c.bad(name, f'federal AGI {wages}: deduction per child {v[key]}, published {want}', p)
                 break
+        # the band is that of the FEDERAL adjusted gross income: N.C. additions (Schedule S part A) and deductions do not move it
+        p = scen.plain_persona(y, s, edge - 150, deps_ctc=1, deps_odc=0, nc=True, n_1098=1, f1098=f1098)
+        p.ncv['additions_to_agi'] = True
+        p.overrides.update({'nc_d-400_ss.interest_income_not_nc': '600'})
+        out, tv, v = c.solve(p)
+        key = 'nc_d-400_child_deduction_wkst.4'
+        if key in v and v.get('nc_d-400.7', 0.0) > 0:
+            if abs(v[key] - amt) > 0.005:
+                c.bad(f'nc_child_deduction#{edge}', f'federal AGI {edge - 150} with N.C. additions of {v.get("nc_d-400.7")}: deduction per child {v[key]}, published {amt} for that federal AGI', p)
 
 
 # (form, table) -> (amount name in hv/statutory.py, index for list-valued amounts)
